@@ -3969,7 +3969,8 @@ class Wallet(object):
             else:
                 fee_estimate = 0
             if isinstance(fee, str):
-                fee = fee_estimate
+                # Named fee priority: calculate fee from fee_per_kb after inputs are selected
+                fee = None
 
         # Add inputs
         sequence = 0xffffffff
